@@ -230,6 +230,9 @@ func driveKvReaders(opt *Options) error {
 		return err
 	}
 	defer tw.Close()
+	if opt.Extra["only"] == "overdead" {
+		return driveKvOverDead(tw)
+	}
 	st := inmem.New()
 	ctx := context.Background()
 	stop := time.Now().Add(1200 * time.Millisecond)
@@ -332,6 +335,54 @@ func driveKvOverDead(tw *TraceWriter) error {
 	}
 	close(reads)
 	tw.Emit(map[string]any{"op": "OverDead", "rounds": n, "lost": lost, "errs": werrs})
+	// the same with ListKeys as the reader, over a store of 200 000 other records: the walk takes milliseconds, the
+	// write lands in the middle of it
+	big := inmem.New()
+	filler := make([]kvs.Record, 0, 1000)
+	for i := 0; i < 200000; i++ {
+		filler = append(filler, kvs.Record{Key: fmt.Sprintf("fill/%06d", i), Value: []byte("f")})
+		if len(filler) == cap(filler) {
+			if err := big.PutMany(ctx, filler); err != nil {
+				return err
+			}
+			filler = filler[:0]
+		}
+	}
+	lost, werrs, n = 0, 0, 0
+	for t1 := time.Now(); n < 40 && time.Since(t1) < 20*time.Second; n++ {
+		k := fmt.Sprintf("od/%d", n)
+		if _, err := big.Put(ctx, kvs.Record{Key: k, Value: []byte("dead"), ExpiresAt: &past}); err != nil {
+			werrs++
+			continue
+		}
+		started := make(chan struct{})
+		listed := make(chan struct{})
+		go func() {
+			close(started)
+			if it, err := big.ListKeys(ctx, "od/*"); err == nil {
+				for it.HasNext() {
+					if _, ok := it.Next(); !ok {
+						break
+					}
+				}
+				it.Close()
+			}
+			close(listed)
+		}()
+		<-started
+		time.Sleep(time.Duration(200+n*100) * time.Microsecond) // somewhere inside the walk
+		w, err := big.Put(ctx, kvs.Record{Key: k, Value: []byte("fresh")})
+		<-listed
+		if err != nil {
+			werrs++
+			continue
+		}
+		g, err := big.Get(ctx, k)
+		if err != nil || g.Version != w.Version {
+			lost++
+		}
+	}
+	tw.Emit(map[string]any{"op": "OverDead", "reader": "ListKeys over 200000 records", "rounds": n, "lost": lost, "errs": werrs})
 	return nil
 }
 
